@@ -637,16 +637,39 @@ fn main() {
             eprintln!("{}", msg);
         }
     }));
+    // watchdog: a case that runs longer than the limit is reported as HANG and the process exits(3);
+    // the driver restarts the harness on the remaining cases
+    let started = std::sync::Arc::new(std::sync::atomic::AtomicU64::new(0));
+    {
+        let started = started.clone();
+        let limit_ms: u64 = std::env::var("PP_CASE_LIMIT_MS").ok().and_then(|v| v.parse().ok()).unwrap_or(4000);
+        std::thread::spawn(move || loop {
+            std::thread::sleep(std::time::Duration::from_millis(100));
+            let t0 = started.load(std::sync::atomic::Ordering::SeqCst);
+            if t0 != 0 {
+                let now = std::time::SystemTime::now().duration_since(std::time::UNIX_EPOCH).unwrap().as_millis() as u64;
+                if now > t0 + limit_ms {
+                    println!("{{\"r\":\"HANG\"}}");
+                    std::process::exit(3);
+                }
+            }
+        });
+    }
     let stdin = std::io::stdin();
     let stdout = std::io::stdout();
-    let mut out = std::io::BufWriter::new(stdout.lock());
+    let mut out = std::io::LineWriter::new(stdout.lock());
     for line in stdin.lock().lines() {
         let line = line.expect("read");
         if line.trim().is_empty() {
             continue;
         }
         let c: Value = serde_json::from_str(&line).expect("json");
+        started.store(
+            std::time::SystemTime::now().duration_since(std::time::UNIX_EPOCH).unwrap().as_millis() as u64,
+            std::sync::atomic::Ordering::SeqCst,
+        );
         let r = catch_unwind(AssertUnwindSafe(|| run_case(&c)));
+        started.store(0, std::sync::atomic::Ordering::SeqCst);
         let mut o = match r {
             Ok(v) => json!({ "r": v }),
             Err(e) => {
